@@ -244,9 +244,131 @@ def padded_cases(maxlen):
             yield ([], False, ops)
 
 
+# ----------------------------------------------------------------------------- the wrappers that turn varargs into rules
+CALL_FORMS_MODEL = """
+[request_definition]
+r = {fields}
+
+[policy_definition]
+p = {fields}
+
+[role_definition]
+g = _, _
+
+[policy_effect]
+e = some(where (p.eft == allow))
+
+[matchers]
+m = {matcher}
+"""
+
+
+def call_forms_cases(rng, n):
+    """(arity, history): every entry point that accepts a rule either as ONE list or as separate arguments is called in
+    both forms, on policy definitions of one, two and three fields; values include texts with commas and blanks (two
+    different rules may then print alike)"""
+    vals = ["alice", "bob", "data1", "read", "a,b", "a", "b,c", "cn=x,ou=y", "x y", ""]
+    for i in range(n):
+        ar = [1, 2, 3, 1, 3][i % 5]
+        uni = []
+        for _ in range(rng.randint(2, 4)):
+            uni.append([rng.choice(vals[:9] if ar > 1 else vals[:9]) for _ in range(ar)])
+        if ar >= 2:                                   # two different rules whose ", "-joined texts coincide
+            uni += [["a,b", "c"] + ["z"] * (ar - 2), ["a", "b,c"] + ["z"] * (ar - 2)]
+        guni = [["alice", "admin"], ["bob", "admin"], ["a,b", "c"], ["a", "b,c"]]
+        h = []
+        for _ in range(rng.randint(3, 12)):
+            kindop = rng.choice(["add", "add", "remove", "has", "has", "addn", "removen", "hasn", "adds", "removes",
+                                 "gadd", "gremove", "ghas", "gadds", "gremoves"])
+            form = rng.choice(["list", "varargs"])
+            if kindop in ("adds", "removes"):
+                h.append((kindop, [list(rng.choice(uni)) for _ in range(rng.randint(1, 3))], "list"))
+            elif kindop in ("gadds", "gremoves"):
+                h.append((kindop, [list(rng.choice(guni)) for _ in range(rng.randint(1, 3))], "list"))
+            elif kindop.startswith("g"):
+                h.append((kindop, list(rng.choice(guni)), form))
+            else:
+                h.append((kindop, list(rng.choice(uni)), form))
+        yield ar, h
+
+
+def call_forms_run(ar, h):
+    """returns (failure or None, observations)"""
+    import casbin
+    fields = ["sub", "obj", "act"][:ar]
+    text = CALL_FORMS_MODEL.format(fields=", ".join(fields), matcher=" && ".join(f"r.{f} == p.{f}" for f in fields))
+    e = casbin.Enforcer(casbin.Enforcer.new_model(text=text))
+    P, G = [], []
+    api = {"add": (e.add_policy, P, "add"), "remove": (e.remove_policy, P, "remove"), "has": (e.has_policy, P, "has"),
+           "addn": (lambda *a: e.add_named_policy("p", *a), P, "add"), "removen": (lambda *a: e.remove_named_policy("p", *a), P, "remove"),
+           "hasn": (lambda *a: e.has_named_policy("p", *a), P, "has"),
+           "gadd": (e.add_grouping_policy, G, "add"), "gremove": (e.remove_grouping_policy, G, "remove"), "ghas": (e.has_grouping_policy, G, "has"),
+           "adds": (e.add_policies, P, "adds"), "removes": (e.remove_policies, P, "removes"),
+           "gadds": (e.add_grouping_policies, G, "adds"), "gremoves": (e.remove_grouping_policies, G, "removes")}
+    obs = []
+    for i, (name, arg, form) in enumerate(h):
+        fn, S, what = api[name]
+        try:
+            got = fn(arg) if form == "list" else fn(*arg)
+        except Exception as exc:  # noqa
+            got = "raise " + type(exc).__name__
+        if what == "add":
+            want = arg not in S
+            if want:
+                S.append(list(arg))
+        elif what == "remove":
+            want = arg in S
+            if want:
+                S.remove(arg)
+        elif what == "has":
+            want = arg in S
+        elif what == "adds":
+            want = all(r not in S for r in arg) and all(arg.count(r) == 1 for r in arg)
+            if want:
+                S.extend(list(r) for r in arg)
+        else:
+            want = all(r in S for r in arg) and all(arg.count(r) == 1 for r in arg)
+            if want:
+                for r in arg:
+                    S.remove(r)
+        state = (e.get_policy(), e.get_grouping_policy())
+        obs.append([got, state[0], state[1]])
+        if got != want:
+            return dict(step=i, call=[name, arg, form], returned=got, expected=want), obs
+        if state[0] != P or state[1] != G:
+            return dict(step=i, call=[name, arg, form], stored=state, expected_stored=[P, G]), obs
+    return None, obs
+
+
+def call_forms_stratum(chk, n):
+    done = 0
+    for ar, h in call_forms_cases(chk.rng, n):
+        bad, obs = call_forms_run(ar, h)
+        chk.count(("call-forms", ar, repr(h)))
+        done += 1
+        if bad:
+            # shrink: drop calls while it still fails
+            hh = list(h[:bad["step"] + 1])
+            k = 0
+            while k < len(hh) - 1:
+                cand = hh[:k] + hh[k + 1:]
+                b2, _ = call_forms_run(ar, cand)
+                if b2:
+                    hh, bad = cand, b2
+                else:
+                    k += 1
+            chk.spec_fail(dict(stratum="call-forms", arity=ar, history=[list(x) for x in hh]), dict(returned=bad.get("returned"), stored=bad.get("stored")),
+                          dict(expected=bad.get("expected"), stored=bad.get("expected_stored")),
+                          "a management call given the rule as separate arguments / as one list does not behave as the same "
+                          "operation on the duplicate-free ordered rule set (result or stored rules differ)")
+            break
+    chk.extra.setdefault("strata", {})["call_forms_arity_1_2_3"] = done
+
+
 def run(chk, n_random, exh_len):
     rng = chk.rng
     known_probe_uf(chk)
+    call_forms_stratum(chk, max(200, n_random))
     pad = list(padded_cases(3))
     mgmt.run_cases(chk, mgmt.KINDS["acl"].with_(adapter=False), pad, spec_check, label="padded-names-len<=3")
     chk.extra.setdefault("strata", {})["padded_names_len<=3"] = len(pad)
@@ -381,6 +503,15 @@ def main():
                    "but tied by the differential correspondence only"]
     chk.build(translators=["policy"], oracle_name="Mgmt")
     if chk.replay_file:
+        import json as _json
+        c = (_json.load(open(chk.replay_file)).get("case") or {})
+        if c.get("stratum") == "call-forms":
+            bad, obs = call_forms_run(c["arity"], [tuple(x) for x in c["history"]])
+            print("replay (call forms):", _json.dumps(bad)[:600] if bad else "every call behaves as the set operation")
+            if bad:
+                print(f"VIOLATION property={PROP} replay={chk.replay_file}")
+                raise SystemExit(1)
+            raise SystemExit(0)
         return mgmt.replay_case(chk, spec_all)
     if chk.tier == "thorough":
         run(chk, 1500, 3)
